@@ -254,7 +254,7 @@ func checkDepthComparatorImpl(c *Ctx, rule string) {
 				}
 			}
 		}
-		floor := map[string]int{"memory": 2, "sqlite": 3, "postgres": 1}[be]
+		floor := map[string]int{"memory": 1, "sqlite": 2, "postgres": 1}[be] // Enqueue and EnqueueBatch may share one admission test
 		c.Floor(rule, be+"_depth_tests", n, floor)
 	}
 	// the counters themselves
